@@ -504,6 +504,8 @@ def run(chk):
                 'long / Unicode inputs and nesting depths 1..200.  A case is one distinct input string; it is '
                 'non-trivial when it contains a non-blank character.  Each case runs parse, iterparse and parse_triples.')
     chk.require_theorems('Properties.C07', THEOREMS)
+    from harness import extra_theorems
+    chk.require_theorems('Properties.C07b', extra_theorems.THEOREMS_C07)
     common.use_repo()
     chk.exhaustive = True
     chk.assumptions += [
